@@ -312,6 +312,9 @@ def fixed_inners():
         "select_orderby_disjunction": sel_t + [["where", [["gt", T, ["raw", 0]]]], ["orderby", [disj]]],
         "select_groupby_disjunction": [["from_", [["src", "T"]]], ["select", [["fn", "Count", [["py", "*"]]]]], ["groupby", [disj]], ["having", [["or", ["gt", ["fn", "Count", [["py", "*"]]], ["raw", 1]], ["eq", ["fn", "Max", [T]], ["raw", 5]]]]]],
         "select_item_disjunction": [["from_", [["src", "T"]]], ["select", [disj]]],
+        # a scalar subquery as ORDER BY term of a set operation / of a query: bracketed stand-alone as well as embedded
+        "setop_orderby_scalar_subquery": sel_t + [["union_all", [["q", sel_u]]], ["orderby", [["subq", {"cls": "inherit", "sources": {}, "steps": [["from_", [["src", "U"]]], ["select", [["fn", "Max", [U]]]]]}]]]],
+        "select_orderby_scalar_subquery": sel_t + [["orderby", [["subq", {"cls": "inherit", "sources": {}, "steps": [["from_", [["src", "U"]]], ["select", [["fn", "Max", [U]]]]]}]]]],
     }
     for name, steps in out.items():
         for cls in CTXS:
